@@ -231,6 +231,28 @@ def run(chk, replay=None):
         chk.part("identical_particles_with_spin", models=len(tcases), chains=tvt.stats.get("chains", 0),
                  per_key_rejects_in_the_domain_of_the_listed_finding_not_judged=not_judged,
                  judged="chain-wignerD, chain-clebsch-gordan, symmetrised-chains-complete-per-coherence-class, closure")
+    # the universe TLC enumerates for Amplitude_MC (three final states, spins <= 1, every tree, eta = +-1, full helicity sets):
+    # exhaustive in the thorough tier, every 12th reaction in the quick tier
+    ucases = ampl_run.universe_cases(chk, stride=1 if tier == "thorough" else 12, offset=0, which={"formula"})
+    for label, reaction, cfg, model, rec in ucases:
+        if model is None:
+            chk.violation(f"formulate-raises:{rec['error'].split(':')[0]}:universe", f"formulate() failed for {label}: {rec['error']}", {"label": label})
+    ucases = [c for c in ucases if c[3] is not None]
+    if ucases:
+        tvu, _, ubyid = ampl_run.validate(chk, ucases, name="trace_amplitude_universe")
+        for clause, rid, info in tvu.rejects:
+            chk.violation(f"{clause}:helicity:universe", f"{clause} rejected for {ubyid[rid][0]} ({ubyid[rid][4]['trs'][0]['edges']}): {str(info)[:500]}", {"label": ubyid[rid][0], "record": ubyid[rid][4]})
+        chk.count(len(ucases))
+        for c in ucases:
+            chk.nontrivial(("universe", ampl.digest(c[4]["trs"])))
+    if tier == "thorough":
+        # design level: the term generator is internally consistent on every reaction of the (smaller) universe
+        from .. import tlc as _tlc
+
+        resu = _tlc.run("Amplitude_MC", ampl_run.UNIVERSE_CFG.format(maxspin2=1, etas="EtaGiven", invariants=ampl_run.UNIVERSE_INVARIANTS), workers=2, timeout=2400)
+        chk.add_tlc("amplitude_generator_invariants", resu)
+        if not resu.ok:
+            raise Machinery(f"Amplitude.tla violates its own consistency invariants on the universe: {resu.violated}")
     # the assigned lineshape is part of the formula: every node of every chain carries the builder's
     # expression on its own variables (tagged builders; Trace_Dynamics recomputes the expectation)
     from . import c13
